@@ -1,4 +1,5 @@
 import OrixModel.NDArray
+import OrixModel.Unique
 import Driver.Proto
 /-
 op `nd <cls> <shape> <flags> <meta> <prog>`: run a program of structural / element-wise operations (C16) on an
@@ -144,3 +145,71 @@ def handle : List String → String
   | _ => "!err bad-op"
 
 end Orix.Driver.ND
+
+/-
+op `uniq <variant> <mode> <ncomp> <v…>`: `unique()` of the model (`OrixModel/Unique.lean`) on a list of rows.
+  variant  base  `Object3d.unique` (Quaternion, Vector3d, Miller): rows of ncomp components, zero rows dropped
+           rotA  `Rotation.unique(antipodal=True)`:  rows a b c d flag, keys = differentiators (12 decimals) + flag
+           rotN  `Rotation.unique(antipodal=False)`: rows a b c d flag, keys = components (10 decimals) + flag
+           spec  the specification (`uniqueSpec`) on the `base` keys
+  mode     f  components are floats (16 hex digits), keys are `rint(x·10^d)` as the code rounds
+           i  components are integers m meaning m/2^k: rounding is the identity, keys are computed exactly in Int
+answer: `<rows of returned keys, `|`-separated, components `,`-separated> <idx> <inv>`  (`-` = empty)
+-/
+namespace Orix.Driver.Uniq
+open Orix Proto Orix.Unique
+
+def chunks (n : Nat) (xs : List α) : List (List α) :=
+  if n = 0 then [] else
+  let rec go (fuel : Nat) (xs : List α) (acc : List (List α)) : List (List α) :=
+    match fuel, xs with
+    | 0, _ => acc.reverse
+    | _, [] => acc.reverse
+    | fuel + 1, xs => go fuel (xs.drop n) (xs.take n :: acc)
+  go xs.length xs []
+
+def showNats (l : List Nat) : String := if l.isEmpty then "-" else ",".intercalate (l.map toString)
+def showRows (l : List (List Int)) : String :=
+  if l.isEmpty then "-" else "|".intercalate (l.map (fun r => ",".intercalate (r.map toString)))
+def showResult (r : Result (List Int)) : String := s!"{showRows r.out} {showNats r.idx} {showNats r.inv}"
+
+def quatOf {α : Type} (r : List α) : Option (Quat α × α) :=
+  match r with
+  | [a, b, c, d, f] => some (⟨a, b, c, d⟩, f)
+  | _ => none
+
+def handle : List String → String
+  | variant :: mode :: ncomp :: vals =>
+    match ncomp.toNat? with
+    | none => "!err parse"
+    | some nc =>
+      let keysOpt : Option (List (List Int)) :=
+        if mode == "f" then do
+          let xs ← parseAll parseFloat vals
+          let rows := chunks nc xs
+          if variant == "rotA" then
+            rows.mapM (fun r => do
+              let (q, f) ← quatOf r
+              pure ((differentiators q ++ [f]).map (roundKey 12)))
+          else pure (rows.map (fun r => r.map (roundKey 10)))
+        else if mode == "i" then do
+          let xs ← parseAll parseInt vals
+          let rows := chunks nc xs
+          if variant == "rotA" then
+            rows.mapM (fun r => do
+              let (q, f) ← quatOf r
+              pure (differentiators q ++ [f]))
+          else pure rows
+        else none
+      match keysOpt with
+      | none => "!err parse"
+      | some keys =>
+        let drop : List Int → Bool := if mode == "f" then zeroRow else fun r => r.all (· == 0)
+        if variant == "base" then showResult (baseUnique lexLt drop keys)
+        else if variant == "spec" then showResult (uniqueSpec drop keys)
+        else if variant == "rotA" || variant == "rotN" then
+          if keys.isEmpty then "empty" else showResult (rotUnique lexLt keys)
+        else "!err parse"
+  | _ => "!err bad-op"
+
+end Orix.Driver.Uniq
